@@ -95,6 +95,8 @@ def _dec(t, s):
                     import pandas as pd
                     rows = _dec(v[2], s)
                     return pd.DataFrame(np.array(rows, dtype=float).reshape(len(v[0]), len(v[1])), index=_idx(v[0]), columns=list(v[1]))
+                if k == '$idict':     # a plain dict with integer keys (json keys are strings)
+                    return {int(kk): _dec(vv, s) for kk, vv in v.items()}
                 if k == '$Dict':
                     from pyg_base import Dict
                     return Dict({kk: _dec(vv, s) for kk, vv in v.items()})
